@@ -23,7 +23,7 @@ SUITES["breaker"] = dict(
 SUITES["strategy"] = dict(
     test="TestStrategy", coq_module="Cases.StrategyCase", case_type="str_case", eval="eval_str_case",
     cols=["diff", "mon_rr", "mon_wrr_exact", "mon_wrr_bound", "mon_lc", "mon_affinity", "mon_valid", "mon_remap",
-          "cls_wrr_removed", "nt_c05", "nt_c06", "mon_wrr_proved", "cls_wrr_flap"],
+          "cls_wrr_removed", "nt_c05", "nt_c06", "mon_wrr_proved", "cls_wrr_flap", "mon_pick_eligible"],
     batches={"quick": 4, "thorough": 16}, timeout={"quick": 300, "thorough": 3000},
 )
 
@@ -246,7 +246,9 @@ PROPS["C02"] = dict(
             dict(suite="probe", corr=["diff"], monitors=["mon_c04_probe_window", "mon_c04_probe_recover"], classifiers={}, nontrivial="nt_c04"),
             # no 503 while a backend is healthy throughout, no pick of a backend that is ejected throughout, under every interleaving with flips
             dict(suite="sched", corr=["diff_obs", "diff_trace"], monitors=["mon_sched_prop", "mon_sched_finished"], classifiers={},
-                 nontrivial="nt_sched", filter=lambda c: c["repl"].get("scenario") == 4)],
+                 nontrivial="nt_sched", filter=lambda c: c["repl"].get("scenario") in (1, 4)),
+            # every strategy object, every pick: an eligible member, none only when none is eligible (also with 100 and more requests in flight)
+            dict(suite="strategy", corr=["diff"], monitors=["mon_pick_eligible", "mon_valid"], classifiers={}, nontrivial="nt_c05")],
     rule="probe suite: backends ejected by failed probes, later probes scripted ok inside the window, traffic in between; "
          "balancer histories under virtual time: 5 strategies x pools 1..5 (+admin add/remove), passive ejections by 5xx/502, "
          "windows straddled by +-1 ns gaps, overlapping requests held open by the scripted transports; non-trivial = the pool has "
@@ -286,7 +288,7 @@ PROPS["C11"] = dict(
                  classifiers={}, nontrivial="nt_c11"),
             dict(suite="admin", corr=["diff"], monitors=["mon_c11_admin"], classifiers={}, nontrivial="nt_c10"),
             dict(suite="sched", corr=["diff_obs", "diff_trace"], monitors=["mon_sched_prop", "mon_sched_finished"], classifiers={},
-                 nontrivial="nt_sched", filter=lambda c: c["repl"].get("scenario") in (3, 5)),
+                 nontrivial="nt_sched", filter=lambda c: c["repl"].get("scenario") in (3, 5, 6, 7)),
             # a name removed and added again at another address, on the real binary through the admin API
             dict(suite="stall", corr=[], monitors=["mon_c11_readd"], classifiers={}, nontrivial="mon_c11_readd", filter=lambda c: c["repl"].get("kind") == "readd")],
     rule="balancer histories with add (valid / unparsable address / duplicate name / weight 0..4), remove (present / absent names), "
